@@ -228,7 +228,19 @@ class Judge:
                 continue
             span = max(o.end_time for o in ops) - min(o.start_time for o in ops)
             if abs(d - span) > EPS:
-                self.fail('C04', 'span', '%s %s: duration %r but operations span %r (starts %r ends %r)' % (
+                code = 'span'
+                # Attribution to the listed finding F24 (DESIGN 7.2) by an alternative specification evaluated on this very
+                # object: some nested block has content that starts before the block itself, AND the reported duration is
+                # exactly the span obtained when every directly contained block counts as [block.start, block.end].
+                comps = list(obj.composite_operations) if hasattr(obj, 'composite_operations') else list(obj.get_sub_composite_operations())
+                nested = {id(x) for c_ in comps for x in c_.get_sub_composite_operations()}
+                top_comps = [c_ for c_ in comps if id(c_) not in nested]
+                inside = {id(x) for c_ in comps for x in c_.decomposed_operations()}
+                items = [(o.start_time, o.end_time) for o in ops if id(o) not in inside] + [(c_.start_time, c_.end_time) for c_ in top_comps if c_.decomposed_operations()]
+                early = any(c_.decomposed_operations() and min(x.start_time for x in c_.decomposed_operations()) < c_.start_time - EPS for c_ in comps)
+                if early and items and abs(d - (max(e for _, e in items) - min(s_ for s_, _ in items))) <= EPS:
+                    code = 'span@early-start-block'
+                self.fail('C04', code, '%s %s: duration %r but operations span %r (starts %r ends %r)' % (
                     label, name, d, span, [o.start_time for o in ops], [o.end_time for o in ops]))
                 return
         # follower clause
